@@ -35,6 +35,14 @@ class FakeRun:
     def __init__(self, res): self.res = res
 
 
+class RecLogger:
+    """stands for testlog.json / the console: records every result that is reported"""
+    def __init__(self): self.seen = []
+    def start(self, harness): pass
+    def log(self, harness, result): self.seen.append(result.res)
+    async def finish(self, harness): pass
+
+
 class FakeRunner:
     def __init__(self, name, parallel, resk, st):
         self.visible_name = name; self.is_parallel = parallel; self.fut = None; self.started = 0; self.finished = 0; self.st = st; self.resk = resk
@@ -50,6 +58,10 @@ class FakeRunner:
         self.fut = asyncio.get_running_loop().create_future()
         try:
             await self.fut
+        except asyncio.CancelledError:
+            # the real runner (TestSubprocess.wait) swallows the cancellation, kills the child and reports INTERRUPT
+            self.finished += 1; self.resk = M.TestResult.INTERRUPT
+            return FakeRun(self.resk)
         finally:
             st['running'].remove(self)
         self.finished += 1
@@ -75,6 +87,7 @@ def ob_sched(n, nproc, repeat, maxfail, kinds):
                 par = sym_bool('par%d' % i) if rep == 0 else runners[i].is_parallel
                 runners.append(FakeRunner('t%d.%d' % (i, rep), par, RES[choose(kinds, 'res%d.%d' % (i, rep))], st))
         hh = mk_harness(nproc, repeat, maxfail)
+        rec = RecLogger(); hh.loggers = [rec]
         loop = asyncio.new_event_loop(); asyncio.set_event_loop(loop)
         task = None
         try:
@@ -97,8 +110,12 @@ def ob_sched(n, nproc, repeat, maxfail, kinds):
                     check(r.started == 1 and r.finished == 1, 'every selected test runs exactly once per repetition')
             done = [r for r in runners if r.finished]
             cnt = lambda k: sum(1 for r in done if r.resk is k)
-            check(hh.success_count == cnt(M.TestResult.OK) and hh.fail_count == cnt(M.TestResult.FAIL) and hh.skip_count == cnt(M.TestResult.SKIP)
+            check(hh.success_count == cnt(M.TestResult.OK) and hh.fail_count == cnt(M.TestResult.FAIL) + cnt(M.TestResult.INTERRUPT) and hh.skip_count == cnt(M.TestResult.SKIP)
                   and hh.timeout_count == cnt(M.TestResult.TIMEOUT), 'totals equal the tally of the classifications')
+            lg = lambda k: sum(1 for x in rec.seen if x is k)
+            check(len(rec.seen) == len(done) and all(lg(k) == cnt(k) for k in RES + [M.TestResult.INTERRUPT]), 'every run that finished (interrupted ones too) is reported exactly once')
+            check(hh.success_count + hh.fail_count + hh.skip_count + hh.timeout_count == len(rec.seen), 'the printed totals add up to the number of reported runs')
+            if any(r.resk is M.TestResult.INTERRUPT for r in done): cover('interrupted')
             check((hh.total_failure_count() > 0) == (nbad > 0), 'exit status non-zero iff some test failed or timed out')
             cover('cut' if cut else 'complete')
         finally:
@@ -236,7 +253,7 @@ def obligations(tier):
     for n, nproc, rep, mf, kinds in cfgs:
         out.append(Obligation('schedule[n=%d,j=%d,repeat=%d,maxfail=%d]' % (n, nproc, rep, mf), ob_sched(n, nproc, rep, mf, kinds),
                               dict(runners=n, jobs=nproc, repeat=rep, maxfail=mf, result_classes=kinds, is_parallel='symbolic per runner', completion_order='every order'),
-                              labels=('complete',) if not (mf or rep > 1) else ('cut',), max_paths=3000000))
+                              labels=('complete',) if not (mf or rep > 1) else ('cut',), optional_labels=('interrupted',), max_paths=3000000))
     for k in (1, 2) if q else (1, 2, 3):
         out.append(Obligation('classify[%d]' % k, ob_classify(k), dict(results=k, returncode='any integer', expected_exitcode='None|0|any', should_fail='symbolic'),
                               labels=tuple(NAMES), max_paths=3000000))
